@@ -462,6 +462,10 @@ def run(rep, tier):
     rep.floor("countdown release sites", n2, 1)
     rep.floor("cbsend paths from allocation", n3, 5)
     rep.floor("send loop body paths", n4, 3)
+    # the accounting above takes "tpt_msg_send returned non-zero" to mean "the callback did not and will not run for this
+    # target": the outcome table of tpt_msg_send (return value, number of direct calls per path class) is C05's rule
+    from props import c05
+    rep.floor("tpt_msg_send acyclic paths", c05.send_paths(rep, tp.need(u, "tpt_msg_send")), 10)
     return driver.finish(
         rep, "other",
         "Static analysis of the broadcast code in threadpool_msg_sys.c. Decided: the shared countdown is touched only "
